@@ -97,10 +97,10 @@ def run_c15(pid, tier, seed):
     rng = random.Random(seed * 6151 + 15)
     violations, known, notes = [], [], []
     mcs, states, trans, mut = design_level(pid, tier, violations)
-    nruns = 40 if tier == "quick" else 1200
+    nruns = 160 if tier == "quick" else 1600
     scripts, by_threads = [], {}
     for i in range(nruns):
-        threads = rng.choice([2, 3, 4, 6])
+        threads = rng.choice([2, 3, 4, 6, 6, 8])
         maxlog = rng.choice([1, 2, 3])
         store = dict(rng.choice(api.STORE_CFGS))
         store.update(rollback=True, max_rollback_log_len=maxlog, seed=rng.randrange(1 << 30), hashtable_buckets=4096)
@@ -110,6 +110,18 @@ def run_c15(pid, tier, seed):
                   yields=rng.random() < 0.7, max_ovl=12)
         scripts.append(sc)
         by_threads.setdefault((threads, maxlog), []).append(i + 1)
+    # pool pressure: many threads, each with one session, over the smallest worker pools (one commit worker, the two
+    # rollback workers) with warm-up and rollback on: every session owns a task in both pools
+    for j in range(16 if tier == "quick" else 240):
+        threads = rng.choice([6, 8, 8, 12])
+        maxlog = rng.choice([1, 2])
+        store = dict(commit_concurrency=rng.choice([1, 1, 2]), warm_up=True, rollback=True, max_rollback_log_len=maxlog,
+                     seed=rng.randrange(1 << 30), hashtable_buckets=4096)
+        conc = dict(keys=["k1", "k2", "k3"], vals=["v1", "v2"], emb=rng.choice(["tail", "top", "scatter"]), f=3,
+                    vtable=api.VTABLES[rng.choice(["tiny", "mixed"])], seed=rng.randrange(1 << 30), probes=2)
+        sc = dict(run=nruns + j + 1, cfg=store, conc=conc, threads=threads, ops=30, seed=rng.randrange(1 << 30), yields=True, max_ovl=12)
+        scripts.append(sc)
+        by_threads.setdefault((threads, maxlog), []).append(nruns + j + 1)
     runs, hangs = run_nvh("conc", scripts, pid)
     for h in hangs:
         fid = findings.match_hang(pid, h)
